@@ -5,7 +5,8 @@ produces only rarely: self-referential functions (direct and through a
 receiver), generic calls whose type parameter occurs only in the result,
 uninformative arguments (untyped bottom, lambda), generic constructors whose
 declared type argument is a supertype of what the arguments suggest,
-reassigned variables with a declared supertype, chains of variables.
+reassigned variables with a declared supertype (local, and top-level ones
+assigned by a later function), chains of variables.
 Programs are built with the same constructors and Context registrations the
 generator uses; each is first checked by the reference checker (a program it
 rejects is discarded and counted)."""
@@ -91,7 +92,7 @@ def programs(draw, lang):
     from src.ir import ast, types as tp
     b = Builder(lang)
     units = draw(st.lists(st.sampled_from(['recursive', 'recursive', 'ret-only-generic', 'ret-only-generic', 'box', 'reassigned',
-                                           'chain', 'lambda-arg', 'phantom']), min_size=1, max_size=4))
+                                           'chain', 'lambda-arg', 'phantom', 'global-reassigned']), min_size=1, max_size=4))
     labels = []
     for u in units:
         if u == 'recursive':
@@ -174,6 +175,25 @@ def programs(draw, lang):
             else:
                 b.func(b.G, b.name('ph'), [], b.f.get_void_type(), ast.Block([v]))
                 labels.append('phantom/unused')
+        elif u == 'global-reassigned':
+            # a top-level variable whose declared type its initialiser does not determine, assigned by a later function
+            kind = draw(st.sampled_from(['supertype', 'phantom']))
+            gname = b.name('g')
+            if kind == 'supertype':
+                wide = draw(st.sampled_from([b.anyt(), b.number()]))
+                g = ast.VariableDeclaration(gname, ast.IntegerConstant(1, b.integer()), is_final=False, var_type=wide)
+                ptype = wide
+            else:
+                T = tp.TypeParameter('Q%d' % b.n)
+                c = b.cls(b.name('Shell'), type_params=[T])
+                targ = draw(st.sampled_from([b.string(), b.number()]))
+                ptype = c.get_type().new([targ])
+                g = ast.VariableDeclaration(gname, ast.New(c.get_type().new([targ]), []), is_final=False,
+                                            var_type=c.get_type().new([targ]))
+            b.ctx.add_var(b.G, gname, g)
+            p = ast.ParameterDeclaration(b.name('value'), ptype)
+            b.func(b.G, b.name('store'), [p], b.f.get_void_type(), ast.Block([ast.Assignment(gname, ast.Variable(p.name))]))
+            labels.append('global-reassigned/' + kind)
         elif u == 'reassigned':
             vname = b.name('v')
             wide = draw(st.sampled_from([b.anyt(), b.number()]))
